@@ -1054,5 +1054,10 @@ func planC13(prop string, seed uint64, tier string, idx int) *Plan {
 		p = planC12(prop, seed, tier, idx/2*5) // never the close-in-flight variant: using a server while closing it is not a documented use
 		p.Profile = strings.TrimSuffix(p.Profile, " (close in flight)")
 	}
+	if idx%3 == 0 {
+		// the rate limiter is shared state too: a limit nobody reaches keeps its code on the path of every request
+		p.Knobs.RateLimit = 1000000
+		p.Profile += " + rate limiter"
+	}
 	return p
 }
